@@ -183,6 +183,7 @@ type c29Setting struct {
 	dfltNum           int64    // int (value) duration (seconds) memsize (bytes)
 	dfltBool          bool
 	docDefault        any
+	docEnv, docFlag   string // what configMeta.yaml documents (informational)
 }
 
 func c29YamlName(f reflect.StructField) string {
@@ -216,6 +217,7 @@ func c29Discover() ([]*c29Setting, []string, error) {
 			if mf := md.GetField(s.path); mf != nil {
 				s.metaType = mf.Type
 				s.docDefault = mf.Default
+				s.docEnv, s.docFlag = mf.Envvar, mf.CommandLine
 				if mf.LastVersion != "" {
 					skipped = append(skipped, s.path+" (deprecated since "+mf.LastVersion+")")
 					continue
@@ -338,8 +340,9 @@ type c29Harness struct {
 	eff      [][]string
 	accepted string
 	disagree []string
-	loads    int
-	valLoads int
+	loads     int
+	valLoads  int
+	getterBad []string // getters that answered for another setting in the sweep with distinct values
 	seenCombo map[string]int
 }
 
@@ -408,6 +411,22 @@ func (h *c29Harness) setup() error {
 			h.eligible[s.path] = ok
 			names = append(names, fmt.Sprintf("%s=%v", s.path, ok))
 		}
+	}
+	// informational only (README.md and configMeta.yaml disagree about some names):
+	// names configMeta.yaml documents that the code does not read
+	for _, s := range h.settings {
+		read := map[string]bool{}
+		for _, o := range s.opts {
+			read[o.env], read[o.long] = true, true
+		}
+		for _, n := range strings.Split(s.docEnv+","+s.docFlag, ",") {
+			if n = strings.TrimSpace(n); n != "" && !read[n] {
+				fmt.Printf("C29: note: configMeta.yaml documents %q for %s, which has no such flag/environment variable (cmdenv %v)\n", n, s.path, s.opts)
+			}
+		}
+	}
+	if h.getterBad, err = h.getterSweep(); err != nil {
+		return err
 	}
 	counts := map[string]int{}
 	for _, s := range h.settings {
@@ -845,6 +864,80 @@ func (h *c29Harness) getterMismatches(fc *fileConfig) []string {
 	return bad
 }
 
+// getterSweep loads configurations in which every setting has a value of its
+// own (booleans: bit k of the setting's number in load k), so that a getter
+// answering with a neighbouring setting's value is seen.
+func (h *c29Harness) getterSweep() ([]string, error) {
+	seen := map[string]bool{}
+	var bad []string
+	bits := 0
+	for n := len(h.settings); n > 0; n >>= 1 {
+		bits++
+	}
+	for k := 0; k < bits; k++ {
+		file := map[string]map[string]any{"General": {"ConfigurationVersion": 2}}
+		for i, s := range h.settings {
+			var v any
+			u := fmt.Sprintf("u%d", i)
+			switch s.flavor {
+			case "hostport":
+				u += ":80"
+			case "url":
+				u = "https://" + u + ".example"
+			}
+			switch s.class {
+			case "string":
+				v = u
+			case "stringlist":
+				v = []string{u}
+			case "stringmap":
+				v = map[string]string{"k1": u}
+			case "bool":
+				v = (i>>k)&1 == 1
+			case "int":
+				v = 5000 + i
+			case "duration":
+				v = fmt.Sprintf("%ds", 5000+i)
+			case "memsize":
+				v = fmt.Sprintf("%d", 5000+i)
+			}
+			if file[s.group] == nil {
+				file[s.group] = map[string]any{}
+			}
+			file[s.group][s.name] = v
+		}
+		raw, err := yaml.Marshal(file)
+		if err != nil {
+			return nil, err
+		}
+		fp := filepath.Join(h.dir, "sweep.yaml")
+		if err := os.WriteFile(fp, raw, 0o644); err != nil {
+			return nil, err
+		}
+		args := []string{"--config", fp, "--rules_config", filepath.Join(h.dir, "rules.yaml"), "--no-validate"}
+		opts, err := NewCmdEnvOptions(args)
+		if err != nil {
+			return nil, err
+		}
+		h.loads++
+		c, err := NewConfig(opts)
+		if c == nil {
+			return nil, fmt.Errorf("getter sweep: NewConfig: %w", err)
+		}
+		fc, ok := c.(*fileConfig)
+		if !ok {
+			return nil, fmt.Errorf("NewConfig returned %T", c)
+		}
+		for _, b := range h.getterMismatches(fc) {
+			if !seen[b] {
+				seen[b] = true
+				bad = append(bad, b+" (every setting given a value of its own)")
+			}
+		}
+	}
+	return bad, nil
+}
+
 // docDefaultMismatch compares the default the code applies with the one
 // configMeta.yaml documents (when it documents one in a comparable form)
 func c29DocDefaultMismatch(s *c29Setting) string {
@@ -957,6 +1050,7 @@ func (h *c29Harness) Apply(a map[string]any) (err error) {
 			}
 		}
 	}
+	h.disagree = append(h.disagree, h.getterBad...)
 	h.eff = results[h.targets[0].path]
 	for _, s := range h.targets[1:] {
 		if c29JSON(results[s.path]) != c29JSON(h.eff) {
